@@ -287,7 +287,11 @@ def main(tier, replay, t0):
                                 "on": rec["on"].get("kind") or rec["on"]["r"],
                                 "source_head": rec["source"][:160]})
     asan = None
+    memcheck = None
     if tier == "thorough":
+        memcheck = run_memcheck(binp, corpus, work)
+        for sig, txt in (memcheck.get("reports") or {}).items():
+            viol.append(Violation("memcheck-report", sig, txt[:600], {"log": txt[:4000]}))
         asan = run_asan(corpus, work)
         if asan["reports"]:
             for sig, txt in asan["reports"].items():
@@ -310,6 +314,8 @@ def main(tier, replay, t0):
         "samples": samples, "mutants": total, "by_class": stats, "by_outcome": outcomes,
         "by_mutator": by_mut, "directed_runs": directed_n,
         "asan": ({k: v for k, v in asan.items() if k != "reports"} if asan else "thorough only"),
+        "memcheck": ({k: v for k, v in memcheck.items() if k != "reports"} if memcheck
+                     else "thorough only"),
     }, assumptions=[
         "naga::front::wgsl::parse_str and naga::valid::Validator called directly on the same "
         "text are the reference for 'the front end rejects' / 'the validator rejects'",
@@ -360,3 +366,44 @@ def run_asan(corpus, work):
             reports[sig] = txt
     return {"built": True, "mutants": 400000, "exit_codes": sorted(set(rcs)),
             "report_files": len(reports), "reports": reports}
+
+
+def run_memcheck(binp, corpus, work):
+    """valgrind memcheck over a slice of the campaign (plain dev build, ~25x): invalid reads /
+    writes / uses of uninitialised values in the front end on corrupted input would otherwise
+    look like 'no panic'."""
+    import shutil as _sh
+    if not _sh.which("valgrind"):
+        return {"status": "valgrind not found"}
+    outdir = os.path.join(work, "memcheck")
+    os.makedirs(outdir, exist_ok=True)
+    procs = []
+    shards = core.NCPU
+    for s_ in range(shards):
+        logp = os.path.join(outdir, "vg.%d.log" % s_)
+        op = os.path.join(outdir, "fuzz.%d.jsonl" % s_)
+        procs.append((subprocess.Popen(
+            ["valgrind", "--quiet", "--error-exitcode=0", "--log-file=" + logp,
+             "--errors-for-leak-kinds=none", "--leak-check=no", binp, "fuzz", corpus, op, "--seed",
+             str(core.seed() + 2000), "--count", "20000", "--shard", "%d/%d" % (s_, shards)],
+            env=core.env(), stdout=subprocess.PIPE, stderr=subprocess.PIPE, text=True), logp))
+    reports = {}
+    rcs = []
+    for p, logp in procs:
+        try:
+            p.communicate(timeout=5400)
+        except subprocess.TimeoutExpired:
+            p.kill()
+            rcs.append("timeout")
+            continue
+        rcs.append(p.returncode)
+        if os.path.exists(logp):
+            txt = open(logp, errors="replace").read()
+            for block in txt.split("\n==")[0:0] or [txt]:
+                if "Invalid read" in block or "Invalid write" in block or \
+                        "uninitialised" in block or "Invalid free" in block:
+                    first = [l for l in block.splitlines() if " at 0x" in l or " by 0x" in l]
+                    sig = (first[0].split(": ", 1)[-1][:80] if first else "unknown")
+                    reports.setdefault(sig, block[:4000])
+    return {"status": "ran", "mutants": 20000, "exit_codes": sorted(set(map(str, rcs))),
+            "error_reports": len(reports), "reports": reports}
